@@ -100,6 +100,13 @@ def gen_inputs(ctx):
             for form in ("bytes", "stream", "str"):
                 out.append(("ExtParse", {"s": T(R.b58check_enc(pay)) if form == "str" else B(pay), "form": form, "asPrv": False, "net": "test"},
                             ("parse-key-tail-byte", "pub", form, tb in WS)))
+    # one PRIVATE node object asked for both kinds of key with the SAME explicit version number (a loop over all twelve
+    # prefixes for both methods does exactly this): each answer is what its method says, whatever was asked before
+    for node in nodes[:2 if q else 8]:
+        for t in TRIPLES:
+            out.append(("ExtSer", {"node": node, "version": ver4(t), "kind": "pub", "other_kind_first": True}, ("ser-after-other-kind", "pub", t[0])))
+            if not q or t[2] == "bip44":
+                out.append(("ExtSer", {"node": node, "version": ver4(t), "kind": "prv", "other_kind_first": True}, ("ser-after-other-kind", "prv", t[0])))
     # nodes built with a parent OBJECT (public constructor, `parent=`): the parent fingerprint in the string is that
     # object's fingerprint, whether or not anything was ever derived from it
     for _ in range(3 if q else 20):
